@@ -211,3 +211,627 @@ if __name__ == "__main__":
     import json
     print(json.dumps(extract(), indent=1))
     print(generate())
+
+
+# =====================================================================================================================
+# SOURCE-DERIVED MODEL (C12 "source" pass): the tests, the arithmetic and the literals of `run_sampling`, `_not_termination`,
+# `_initialize_fresh`, `execute_iteration`, `compute_evidence` (core.py) and the iteration counter of `Reweighter.run`, COMPILED to
+# Lean terms (scalars over `Sc α` / `ScT α`, counters over `Nat` / `Int`), plus statement skeletons with LOCAL NAMES CANONICALISED
+# (`v0, v1, …` by order of first assignment: a pure renaming of locals changes nothing).  Emits Gen/RunEntrySrc.lean;
+# Props/C12Source.lean proves that `Model.RunEntry` / `Model.ClosedLoop` / `Model.Run` are built from exactly these terms.
+#
+# Parameters of a generated term are ordered by ROLE, never by order of appearance in the expression: parameters of the Python
+# function in signature order, then current-state reads `cur_<key>` (alphabetical), then other atoms (alphabetical), then opaque
+# locals in binding order — so an operand swap changes the term instead of silently permuting its parameters.
+# =====================================================================================================================
+import copy
+from decimal import Decimal
+from fractions import Fraction
+
+SRC_NAME = "G12-run-entry-source"
+
+
+def _safe(s, n=300):
+    """one line, safe inside a Lean string literal or comment"""
+    s = " ".join(str(s).split())
+    s = s.replace("\\", "/").replace('"', "'").replace("/-", "/ -").replace("-/", "- /")
+    return "".join(ch if ch.isprintable() else "?" for ch in s)[:n]
+
+
+def _is_doc(st):
+    return isinstance(st, ast.Expr) and isinstance(st.value, ast.Constant) and isinstance(st.value.value, str)
+
+
+def _mentions(st, words):
+    for n in ast.walk(st):
+        if isinstance(n, ast.Name) and n.id in words:
+            return True
+        if isinstance(n, ast.Attribute) and n.attr in words:
+            return True
+    return False
+
+
+_PBAR = ("pbar", "ProgressBar", "_update_progress_bar", "_update_progress_bar_initial")
+
+
+def _clean(stmts):
+    """statements without docstrings, imports, `pass` and progress-bar bookkeeping"""
+    return [s for s in stmts if not _is_doc(s) and not isinstance(s, (ast.Import, ast.ImportFrom, ast.Pass))
+            and not _mentions(s, _PBAR)]
+
+
+def _fparams(fn):
+    return [a.arg for a in fn.args.args + fn.args.kwonlyargs if a.arg != "self"]
+
+
+def _locals_order(fn):
+    ps = set(_fparams(fn))
+    stores = sorted((n.lineno, n.col_offset, n.id) for n in ast.walk(fn)
+                    if isinstance(n, ast.Name) and isinstance(n.ctx, ast.Store) and n.id not in ps)
+    out = []
+    for _l, _c, nm in stores:
+        if nm not in out:
+            out.append(nm)
+    return out
+
+
+class _Rename(ast.NodeTransformer):
+    def __init__(self, m):
+        self.m = m
+
+    def visit_Name(self, n):
+        return ast.copy_location(ast.Name(id=self.m.get(n.id, n.id), ctx=n.ctx), n)
+
+
+def _src_skeleton(fn):
+    """`path: statement` in program order; locals renamed v0, v1, … by first assignment (`_` kept); docstrings, imports and the
+       progress bar dropped; unknown compound statements are refused"""
+    ren = _Rename({nm: ("_" if nm == "_" else f"v{k}") for k, nm in enumerate(_locals_order(fn))})
+    out = []
+
+    def emit(path, node_or_text):
+        text = node_or_text if isinstance(node_or_text, str) else ast.unparse(ren.visit(copy.deepcopy(node_or_text)))
+        out.append(_safe(f"{path}: {text}"))
+
+    def block(stmts, path):
+        for k, st in enumerate(_clean(stmts)):
+            p = f"{path}{k}"
+            if isinstance(st, ast.If):
+                emit(p, "if " + ast.unparse(ren.visit(copy.deepcopy(st.test))))
+                block(st.body, p + "t.")
+                if st.orelse:
+                    block(st.orelse, p + "e.")
+            elif isinstance(st, ast.While):
+                if st.orelse:
+                    raise Unavailable(f"{fn.name}: while … else")
+                emit(p, "while " + ast.unparse(ren.visit(copy.deepcopy(st.test))))
+                block(st.body, p + ".")
+            elif isinstance(st, (ast.Assign, ast.AugAssign, ast.AnnAssign, ast.Return, ast.Expr, ast.Raise)):
+                emit(p, st)
+            else:
+                raise Unavailable(f"{fn.name}: statement `{type(st).__name__}` (line {st.lineno}) outside the statement language")
+    block(fn.body, "")
+    return out
+
+
+def _num_literal(v):
+    """a non-negative Python numeric literal -> ('nat', n) | ('lit', m, e), exact"""
+    if isinstance(v, bool) or not isinstance(v, (int, float)):
+        raise Unavailable(f"literal {v!r} is not numeric")
+    f = float(v)
+    if f != f or f in (float("inf"), float("-inf")) or f < 0:
+        raise Unavailable(f"literal {v!r} outside the literal language")
+    if f == int(f) and f < 2 ** 53:
+        return ("nat", int(f))
+    d = Decimal(repr(f))
+    _sign, digits, exp = d.as_tuple()
+    m, e = int("".join(map(str, digits))), -exp
+    if e <= 0 or float(Fraction(m, 10 ** e)) != f or e > 400:
+        raise Unavailable(f"literal {v!r}: no exact short decimal form")
+    return ("lit", m, e)
+
+
+def _sc_lit(v):
+    t = _num_literal(v)
+    return f"(Sc.ofNat {t[1]})" if t[0] == "nat" else f"(Sc.lit {t[1]} {t[2]})"
+
+
+def _is_get_current(n):
+    """`self.state.get_current('k')` -> 'k'"""
+    if isinstance(n, ast.Call) and _u(n.func) == "self.state.get_current" and len(n.args) == 1 and not n.keywords \
+            and isinstance(n.args[0], ast.Constant) and isinstance(n.args[0].value, str) and n.args[0].value.isidentifier():
+        return n.args[0].value
+    return None
+
+
+def _is_getattr_self(n):
+    """`getattr(self, 'name', default)` -> (name, default node)"""
+    if isinstance(n, ast.Call) and _u(n.func) == "getattr" and len(n.args) == 3 and _u(n.args[0]) == "self" \
+            and isinstance(n.args[1], ast.Constant) and isinstance(n.args[1].value, str) and n.args[1].value.isidentifier():
+        return n.args[1].value, n.args[2]
+    return None
+
+
+class _Fn:
+    """one Python function: single-assignment locals, parameters, module constants"""
+
+    def __init__(self, fn, consts):
+        self.fn = fn
+        self.params = _fparams(fn)
+        self.locals = _locals_order(fn)
+        self.consts = consts
+        self.defs = {}
+        for n in ast.walk(fn):
+            if isinstance(n, ast.Assign) and len(n.targets) == 1 and isinstance(n.targets[0], ast.Name):
+                self.defs.setdefault(n.targets[0].id, []).append(n.value)
+
+    def definition(self, name):
+        """the defining expression of a local assigned exactly once by a plain `name = expr` (tuple targets: none)"""
+        d = self.defs.get(name, [])
+        stores = [n for n in ast.walk(self.fn) if isinstance(n, ast.Name) and isinstance(n.ctx, ast.Store) and n.id == name]
+        return d[0] if len(d) == 1 and len(stores) == 1 else None
+
+
+class _Comp:
+    """expression compiler; `kind` = 'sc' (terms over Sc α) or 'int' (Nat / Int counters)"""
+
+    def __init__(self, F, kind, extra_atoms=None):
+        self.F, self.kind = F, kind
+        self.used = {}                    # lean parameter name -> sort key
+        self.extra = extra_atoms or (lambda n: None)
+        self.shadow = []
+
+    def _use(self, nm, key):
+        self.used[nm] = key
+        return nm
+
+    def params(self):
+        return [k for k, _ in sorted(self.used.items(), key=lambda kv: kv[1])]
+
+    def atom(self, n):
+        k = _is_get_current(n)
+        if k is not None:
+            return self._use(f"cur_{k}", (1, k))
+        g = _is_getattr_self(n)
+        if g is not None:
+            return self._use(f"attr_{g[0]}", (2, g[0]))
+        x = self.extra(n)
+        if x is not None:
+            return self._use(x, (2, x))
+        return None
+
+    def name(self, n):
+        nm = n.id
+        if nm in self.F.params:
+            return self._use(f"a_{nm}" if not nm.isascii() else nm + "_", (0, self.F.params.index(nm)))
+        if nm in self.F.locals:
+            d = self.F.definition(nm)
+            if d is not None:
+                a = self.atom(d)
+                if a is not None:
+                    return a
+                try:                                  # a pure temporary (`is_due = …`) is inlined
+                    saved = dict(self.used)
+                    return self.term(d) if not isinstance(d, (ast.Compare, ast.BoolOp)) else self.test(d)
+                except Unavailable:
+                    self.used = saved
+            k = self.F.locals.index(nm)
+            return self._use(f"loc{k}", (3, k))
+        if nm in self.F.consts:
+            return self.term(self.F.consts[nm])
+        raise Unavailable(f"{self.F.fn.name}: free name {_safe(nm)!r}")
+
+    def term(self, n):
+        a = self.atom(n)
+        if a is not None:
+            return a
+        if isinstance(n, ast.Constant):
+            if self.kind == "sc":
+                return _sc_lit(n.value)
+            if isinstance(n.value, int) and not isinstance(n.value, bool) and n.value >= 0:
+                return str(n.value)
+            raise Unavailable(f"literal {n.value!r} in a counter expression")
+        if isinstance(n, ast.Name):
+            return self.name(n)
+        if isinstance(n, ast.UnaryOp) and isinstance(n.op, ast.USub) and self.kind == "sc":
+            return f"(Sc.neg {self.term(n.operand)})"
+        if isinstance(n, ast.BinOp):
+            a, b = self.term(n.left), self.term(n.right)
+            if self.kind == "sc":
+                op = {ast.Add: "Sc.add", ast.Sub: "Sc.sub", ast.Mult: "Sc.mul", ast.Div: "Sc.div"}.get(type(n.op))
+                if op is None:
+                    raise Unavailable(f"operator {type(n.op).__name__}")
+                return f"({op} {a} {b})"
+            op = {ast.Add: "+", ast.Sub: "-", ast.Mult: "*", ast.Mod: "%", ast.FloorDiv: "/"}.get(type(n.op))
+            if op is None:
+                raise Unavailable(f"operator {type(n.op).__name__}")
+            return f"({a} {op} {b})"
+        if isinstance(n, ast.Call) and not n.keywords and len(n.args) == 1:
+            f = _u(n.func)
+            if self.kind == "int" and f == "int":
+                return self.term(n.args[0])
+            if self.kind == "sc" and f in ("np.exp", "math.exp"):
+                return f"(ScT.exp {self.term(n.args[0])})"
+            if self.kind == "sc" and f in ("np.abs", "abs"):
+                return f"(Sc.abs {self.term(n.args[0])})"
+            if self.kind == "sc" and f == "float":
+                return self.term(n.args[0])
+        if isinstance(n, ast.IfExp) and self.kind == "int":
+            t = n.test
+            if isinstance(t, ast.Compare) and len(t.ops) == 1 and isinstance(t.ops[0], (ast.Is, ast.IsNot)) \
+                    and isinstance(t.comparators[0], ast.Constant) and t.comparators[0].value is None:
+                x = self.term(t.left)
+                self.opt = getattr(self, "opt", set()) | {x}
+                some, none = (n.body, n.orelse) if isinstance(t.ops[0], ast.IsNot) else (n.orelse, n.body)
+                return f"(match {x} with | some {x} => {self.term(some)} | none => {self.term(none)})"
+        raise Unavailable(f"{self.F.fn.name}: expression `{_safe(ast.unparse(n), 80)}` outside the expression language")
+
+    def test(self, n):
+        if isinstance(n, ast.BoolOp):
+            op = "||" if isinstance(n.op, ast.Or) else "&&"
+            return "(" + f" {op} ".join(self.test(v) for v in n.values) + ")"
+        if isinstance(n, ast.UnaryOp) and isinstance(n.op, ast.Not):
+            return f"(!{self.test(n.operand)})"
+        if isinstance(n, ast.Constant) and isinstance(n.value, bool):
+            return "true" if n.value else "false"
+        if isinstance(n, ast.Name):
+            d = self.F.definition(n.id) if n.id in self.F.locals else None
+            if d is not None:
+                return self.test(d)
+        if not (isinstance(n, ast.Compare) and len(n.ops) == 1):
+            raise Unavailable(f"{self.F.fn.name}: test `{_safe(ast.unparse(n), 80)}` is not a comparison")
+        op, l, r = type(n.ops[0]), n.left, n.comparators[0]
+        if op in (ast.Is, ast.IsNot) and isinstance(r, ast.Constant) and r.value is None and isinstance(l, ast.Name) \
+                and l.id in self.F.params:
+            g = self._use(f"given_{l.id}" if l.id.isascii() else f"given_{self.F.params.index(l.id)}", (0, self.F.params.index(l.id)))
+            self.bools = getattr(self, "bools", set()) | {g}
+            return g if op is ast.IsNot else f"(!{g})"
+        a, b = self.term(l), self.term(r)
+        if self.kind == "sc":
+            if op is ast.Eq:
+                return f"(Sc.le {a} {b} && Sc.le {b} {a})"
+            f = {ast.Lt: "Sc.lt", ast.LtE: "Sc.le", ast.Gt: "Sc.gt", ast.GtE: "Sc.ge"}.get(op)
+            if f is None:
+                raise Unavailable(f"comparison {op.__name__}")
+            return f"({f} {a} {b})"
+        f = {ast.Eq: "({} == {})", ast.NotEq: "({} != {})", ast.Lt: "decide ({} < {})", ast.LtE: "decide ({} ≤ {})",
+             ast.Gt: "decide ({} > {})", ast.GtE: "decide ({} ≥ {})"}.get(op)
+        if f is None:
+            raise Unavailable(f"comparison {op.__name__}")
+        return f.format(a, b)
+
+
+def _defn(name, comment, params, ty, body):
+    ps = "".join(f" ({p} : {t})" for p, t in params)
+    sig = ps + " : " + ty
+    if "α" in sig:                       # the weakest interface the term needs (so that it also runs at `Rat`)
+        ps = " {α : Type} " + ("[ScT α]" if "ScT." in body else "[Sc α]") + ps
+    return f"/-- `{_safe(comment, 160)}` -/\ndef {name}{ps} : {ty} := {body}"
+
+
+def _module_consts(*rels):
+    out = {}
+    for rel in rels:
+        try:
+            tree = _parse(rel)
+        except (OSError, SyntaxError):
+            continue
+        for st in tree.body:
+            if isinstance(st, ast.Assign) and len(st.targets) == 1 and isinstance(st.targets[0], ast.Name) \
+                    and isinstance(st.value, ast.Constant) and isinstance(st.value.value, (int, float)) \
+                    and not isinstance(st.value.value, bool):
+                out[st.targets[0].id] = st.value
+    return out
+
+
+def _only1(xs, what):
+    xs = list(xs)
+    if len(xs) != 1:
+        raise Unavailable(f"expected exactly one {what}, found {len(xs)}")
+    return xs[0]
+
+
+def _evidence_call(stmts, where):
+    """`(a, b) = self.state.compute_logw_and_logz(ARG)` among stmts -> (statement, [names], ARG)"""
+    hits = [s for s in stmts if isinstance(s, ast.Assign) and isinstance(s.value, ast.Call)
+            and _u(s.value.func) == "self.state.compute_logw_and_logz"]
+    s = _only1(hits, f"`… = self.state.compute_logw_and_logz(…)` in {where}")
+    t = s.targets[0]
+    if not (len(s.targets) == 1 and isinstance(t, ast.Tuple) and all(isinstance(e, ast.Name) for e in t.elts)
+            and len(s.value.args) == 1 and not s.value.keywords):
+        raise Unavailable(f"{where}: the result of compute_logw_and_logz is not unpacked into a tuple of names")
+    return s, [e.id for e in t.elts], s.value.args[0]
+
+
+def extract_src():
+    defs, tabs = [], {}
+    consts = _module_consts("tempest/config.py", "tempest/core.py")
+    core = _parse("tempest/core.py")
+
+    # ------------------------------------------------------------------------------------------------ _not_termination
+    nt = _func(core, "SamplerCore", "_not_termination")
+    F = _Fn(nt, consts)
+    body = _clean(nt.body)
+    _s, names, arg = _evidence_call(body, "_not_termination")
+    loads = {n.id for n in ast.walk(nt) if isinstance(n, ast.Name) and isinstance(n.ctx, ast.Load)}
+    logw = _only1([nm for nm in names if nm in loads], "used component of compute_logw_and_logz's result in _not_termination")
+    c = _Comp(F, "sc")
+    defs.append(_defn("termEvidenceArg", "argument of compute_logw_and_logz in _not_termination", [], "α", c.term(arg)))
+    defs.append(_defn("termLogwSlot", "which component of the result is the log-weight vector", [], "Nat", str(names.index(logw))))
+    guards = [s for s in body if isinstance(s, ast.If) and not s.orelse and len(_clean(s.body)) == 1
+              and isinstance(_clean(s.body)[0], ast.Return)]
+    if len(guards) > 1:
+        raise Unavailable("_not_termination: more than one early return")
+    if guards:
+        g = guards[0]
+        ret = _clean(g.body)[0].value
+        if not (isinstance(ret, ast.Constant) and isinstance(ret.value, bool)):
+            raise Unavailable("_not_termination: the early return is not a boolean literal")
+
+        def len_atom(n):
+            if isinstance(n, ast.Call) and _u(n.func) == "len" and len(n.args) == 1 and isinstance(n.args[0], ast.Name):
+                if n.args[0].id != logw:
+                    raise Unavailable("_not_termination: the early return tests the length of something else than the log-weights")
+                return "len_logw"
+            return None
+        ci = _Comp(F, "int", len_atom)
+        t = ci.test(g.test)
+        if ci.params() not in ([], ["len_logw"]):
+            raise Unavailable(f"_not_termination: the early-return test reads {ci.params()}")
+        defs.append(_defn("termEmptyTest", ast.unparse(g.test), [("len_logw", "Nat")], "Bool", t))
+        defs.append(_defn("termEmptyReturn", "value of the early return", [], "Bool", "true" if ret.value else "false"))
+    else:
+        defs.append(_defn("termEmptyTest", "no early return in _not_termination", [("len_logw", "Nat")], "Bool", "false"))
+        defs.append(_defn("termEmptyReturn", "no early return", [], "Bool", "true"))
+    rets = [s for s in body if isinstance(s, ast.Return)]
+    ret = _only1(rets, "final return of _not_termination").value
+    cr = _Comp(F, "sc")
+    rt = cr.test(ret)
+    ps = cr.params()
+    opaque = [p for p in ps if p.startswith("loc")]
+    if sorted(p for p in ps if not p.startswith("loc")) != ["attr_n_total", "cur_beta"] or len(opaque) != 1:
+        raise Unavailable(f"_not_termination: the returned test reads {ps} (expected beta, the attribute n_total and one computed local)")
+    defs.append(_defn("termReturn", ast.unparse(ret), [(p, "α") for p in ps], "Bool", rt))
+    if ps != ["cur_beta", "attr_n_total", opaque[0]]:
+        raise Unavailable("internal: parameter order")
+    g = [_is_getattr_self(n) for n in ast.walk(ret)]
+    g = _only1([x for x in g if x is not None and x[0] == "n_total"], "getattr(self, 'n_total', default)")
+    if not (isinstance(g[1], ast.Constant) and isinstance(g[1].value, int) and not isinstance(g[1].value, bool) and g[1].value >= 0):
+        raise Unavailable("_not_termination: the default of getattr(self, 'n_total', …) is not a natural-number literal")
+    defs.append(_defn("termNTotalDefault", "default of getattr(self, 'n_total', …)", [], "Nat", str(g[1].value)))
+    # the tolerance: the name-free side of the comparison that reads beta
+    tol = None
+    for n in ast.walk(ret):
+        if isinstance(n, ast.Compare) and len(n.ops) == 1:
+            for side, other in ((n.left, n.comparators[0]), (n.comparators[0], n.left)):
+                reads_beta = any(_is_get_current(x) == "beta" or (isinstance(x, ast.Name) and F.definition(x.id) is not None
+                                 and _is_get_current(F.definition(x.id)) == "beta") for x in ast.walk(other))
+                pure = all(not isinstance(x, ast.Name) or x.id in consts for x in ast.walk(side)) \
+                    and not any(isinstance(x, ast.Call) for x in ast.walk(side))
+                if reads_beta and pure and tol is None:
+                    tol = side
+    if tol is None:
+        raise Unavailable("_not_termination: no comparison of an expression in beta with a constant")
+    defs.append(_defn("termTol", "the constant beta's distance from one is compared with", [], "α", _Comp(F, "sc").term(tol)))
+    # how the ESS is computed: ess = effective_sample_size(<elementwise expression in logw and np.max(logw)>)
+    ess_name = F.locals[int(opaque[0][3:])]
+    d = F.definition(ess_name)
+    if not (isinstance(d, ast.Call) and _u(d.func) == "effective_sample_size" and len(d.args) == 1 and not d.keywords):
+        raise Unavailable(f"_not_termination: `{_safe(ess_name)}` is not `effective_sample_size(<weights>)`")
+    w = d.args[0]
+    if isinstance(w, ast.Name) and F.definition(w.id) is not None:
+        w = F.definition(w.id)
+
+    def vec_atom(n):
+        if isinstance(n, ast.Name) and n.id == logw:
+            return "e"
+        if isinstance(n, ast.Call) and _u(n.func) in ("np.max", "np.amax", "max") and len(n.args) == 1 and not n.keywords \
+                and isinstance(n.args[0], ast.Name) and n.args[0].id == logw:
+            return "mx"
+        return None
+    F2 = _Fn(nt, consts)
+    F2.locals = [x for x in F2.locals if x != logw]
+    cw = _Comp(F2, "sc", vec_atom)
+    wt = cw.term(w)
+    if not set(cw.params()) <= {"e", "mx"}:
+        raise Unavailable(f"_not_termination: the weights read {cw.params()}")
+    defs.append(_defn("termWeight", "one element of " + ast.unparse(w) + "  (e: the element, mx: np.max of the vector)",
+                      [("e", "α"), ("mx", "α")], "α", wt))
+    tabs["termSkeleton"] = _src_skeleton(nt)
+
+    # ------------------------------------------------------------------------------------------------ run_sampling
+    rs = _func(core, "SamplerCore", "run_sampling")
+    F = _Fn(rs, consts)
+    body = _clean(rs.body)
+    ei = [i for i, st in enumerate(body) if isinstance(st, ast.If) and "resume_state_path" in _u(st.test)]
+    if len(ei) != 1:
+        raise Unavailable("run_sampling: no (or more than one) top-level if-chain testing resume_state_path")
+    ei = ei[0]
+    wi = [i for i, s in enumerate(body) if isinstance(s, ast.While)]
+    if len(wi) != 1 or wi[0] < ei:
+        raise Unavailable("run_sampling: expected exactly one while loop, after the entry chain")
+    wi = wi[0]
+    chain, arms, node = body[ei], [], body[ei]
+    while True:
+        arms.append((node.test, node.body))
+        if len(node.orelse) == 1 and isinstance(node.orelse[0], ast.If):
+            node = node.orelse[0]
+            continue
+        arms.append((None, node.orelse))
+        break
+    if len(arms) != 3 or not arms[2][1]:
+        raise Unavailable(f"run_sampling: the entry chain has {len(arms)} arms (expected if / elif / else)")
+
+    def hist_atom(n):
+        if isinstance(n, ast.Call) and _u(n.func) == "self.state.get_history_length" and not n.args and not n.keywords:
+            return "history_length"
+        return None
+    tags, tests = [], []
+    for test, b in arms:
+        calls = [x for x in _self_calls(b) if x not in _PBAR]
+        tag = {("_initialize_from_resume",): "resume", (): "continue", ("_initialize_fresh",): "fresh"}.get(tuple(calls))
+        if tag is None:
+            raise Unavailable(f"run_sampling: an entry arm calls {calls}")
+        tags.append(tag)
+        if test is not None:
+            ct = _Comp(F, "int", hist_atom)
+            tests.append(ct.test(test))
+            if not set(ct.params()) <= {"given_resume_state_path", "history_length"}:
+                raise Unavailable(f"run_sampling: an entry test reads {ct.params()}")
+    if sorted(tags) != ["continue", "fresh", "resume"]:
+        raise Unavailable(f"run_sampling: entry arms {tags}")
+    defs.append(_defn("entryArm", " / ".join(ast.unparse(t) for t, _ in arms if t is not None) + " / else",
+                      [("given_resume_state_path", "Bool"), ("history_length", "Nat")], "String",
+                      f'if {tests[0]} then "{tags[0]}" else if {tests[1]} then "{tags[1]}" else "{tags[2]}"'))
+    pre = body[ei + 1:wi]
+    t0s = [s for s in pre if isinstance(s, ast.Assign) and len(s.targets) == 1 and _u(s.targets[0]) == "self.t0"]
+    nts = [s for s in pre if isinstance(s, ast.Assign) and len(s.targets) == 1 and _u(s.targets[0]) == "self.n_total"]
+    if len(t0s) > 1 or len(nts) > 1:
+        raise Unavailable("run_sampling: self.t0 / self.n_total assigned more than once before the loop")
+    t0name = t0s[0].value.id if t0s and isinstance(t0s[0].value, ast.Name) else None
+    if t0s and t0name is None:
+        raise Unavailable("run_sampling: self.t0 is not assigned from a local")
+    loopcall = [n for n in ast.walk(body[wi]) if isinstance(n, ast.Call) and _u(n.func) == "self.execute_iteration"]
+    kw = {k.arg: _u(k.value) for k in loopcall[0].keywords} if len(loopcall) == 1 else {}
+    t0loop = kw.get("t0")
+    if t0name is None:
+        t0name = t0loop
+    if t0name is None:
+        raise Unavailable("run_sampling: cannot tell which local is t0")
+    for (test, b), tag in zip(arms, tags):
+        vals = [n.value for st in b for n in ast.walk(st)
+                if isinstance(n, ast.Assign) and len(n.targets) == 1 and _u(n.targets[0]) == t0name]
+        v = _only1(vals, f"assignment of `{_safe(t0name)}` in the {tag} arm")
+        Fa = _Fn(ast.FunctionDef(name="run_sampling", args=rs.args, body=b, decorator_list=[], lineno=rs.lineno), consts)
+        ca = _Comp(Fa, "int")
+        tv = ca.term(v)
+        if not set(ca.params()) <= {"cur_iter"}:
+            raise Unavailable(f"run_sampling: t0 of the {tag} arm reads {ca.params()}")
+        ty = "Option Nat" if "cur_iter" in getattr(ca, "opt", set()) else "Nat"
+        if "cur_iter" in ca.params() and ty == "Nat":
+            tv = tv     # `int(iter_val)` without the None test: still a function of the counter
+            defs.append(_defn("entryT0" + tag.capitalize(), ast.unparse(v), [("cur_iter", "Option Nat")], "Nat",
+                              f"(match cur_iter with | some cur_iter => {tv} | none => 0)") + "  -- no None test in the source")
+        else:
+            defs.append(_defn("entryT0" + tag.capitalize(), ast.unparse(v), [("cur_iter", "Option Nat")], "Nat", tv))
+    if nts:
+        cn = _Comp(F, "int")
+        v = cn.term(nts[0].value)
+        if cn.params() != ["n_total_"]:
+            raise Unavailable(f"run_sampling: self.n_total is computed from {cn.params()}")
+        defs.append(_defn("prologueNTotal", ast.unparse(nts[0]), [("n_total_", "Nat")], "Option Nat", f"some {v}"))
+    else:
+        defs.append(_defn("prologueNTotal", "self.n_total is NOT assigned between the entry chain and the loop", [("n_total_", "Nat")],
+                          "Option Nat", "none"))
+    defs.append(_defn("prologueT0Stored", "self.t0 = <the local t0> before the loop", [], "Bool", "true" if t0s else "false"))
+    defs.append(_defn("loopPassesT0", "the loop hands the same local to execute_iteration(t0=…)", [], "Bool",
+                      "true" if t0loop == t0name else "false"))
+    post = body[wi + 1:]
+    try:
+        _s, names, arg = _evidence_call(post, "the epilogue of run_sampling")
+        defs.append(_defn("epilogueArg", "argument of compute_logw_and_logz after the loop", [], "α", _Comp(F, "sc").term(arg)))
+        sets = [n for st in post for n in ast.walk(st) if isinstance(n, ast.Call) and _u(n.func) == "self.state.set_current"]
+        st = _only1(sets, "set_current in the epilogue")
+        if not (len(st.args) == 2 and isinstance(st.args[0], ast.Constant) and isinstance(st.args[0].value, str)
+                and isinstance(st.args[1], ast.Name) and st.args[1].id in names):
+            raise Unavailable("run_sampling: the epilogue's set_current does not store a component of compute_logw_and_logz's result")
+        defs.append(_defn("epilogueKey", "state key written after the loop", [], "String", '"' + _safe(st.args[0].value) + '"'))
+        defs.append(_defn("epilogueSlot", "which component of the result is stored", [], "Nat", str(names.index(st.args[1].id))))
+    except Unavailable as e:
+        if "found 0" not in str(e):
+            raise
+        defs.append(_defn("epilogueArg", "NO compute_logw_and_logz after the loop", [], "α", "(Sc.ofNat 0)"))
+        defs.append(_defn("epilogueKey", "nothing written after the loop", [], "String", '""'))
+        defs.append(_defn("epilogueSlot", "nothing stored", [], "Nat", "0"))
+    tabs["runSkeleton"] = _src_skeleton(rs)
+
+    # ------------------------------------------------------------------------------------------------ _initialize_fresh
+    fr = _func(core, "SamplerCore", "_initialize_fresh")
+    F = _Fn(fr, consts)
+    writes = {}
+    order = []
+    for n in sorted((n for n in ast.walk(fr) if isinstance(n, ast.Call) and _u(n.func) == "self.state.set_current"),
+                    key=lambda n: (n.lineno, n.col_offset)):
+        if not (len(n.args) == 2 and isinstance(n.args[0], ast.Constant) and isinstance(n.args[0].value, str)):
+            raise Unavailable("_initialize_fresh: set_current with a non-literal key")
+        writes[n.args[0].value] = n.args[1]
+        order.append(_safe(n.args[0].value))
+    tabs["freshWrites"] = order
+    for key, kind, ty in (("iter", "int", "Nat"), ("calls", "int", "Nat"), ("beta", "sc", "α"), ("logz", "sc", "α")):
+        if key in writes:
+            cf = _Comp(F, kind)
+            v = cf.term(writes[key])
+            if cf.params():
+                raise Unavailable(f"_initialize_fresh: the value of {key} reads {cf.params()}")
+            defs.append(_defn("fresh" + key.capitalize(), f"set_current('{key}', …)", [], f"Option {ty}", f"some {v}"))
+        else:
+            defs.append(_defn("fresh" + key.capitalize(), f"'{key}' is NOT written by _initialize_fresh", [], f"Option {ty}", "none"))
+    tabs["freshSkeleton"] = _src_skeleton(fr)
+    tabs["resumeSkeleton"] = _src_skeleton(_func(core, "SamplerCore", "_initialize_from_resume"))
+
+    # ------------------------------------------------------------------------------------------------ execute_iteration
+    ex = _func(core, "SamplerCore", "execute_iteration")
+    F = _Fn(ex, consts)
+    saves = [n for n in ast.walk(ex) if isinstance(n, ast.If)
+             and any(isinstance(c, ast.Call) and _u(c.func) == "self.save_sampler_state" for st in n.body for c in ast.walk(st))
+             and not (isinstance(n.test, ast.Compare) and isinstance(n.test.ops[0], (ast.Is, ast.IsNot)))]
+    sv = _only1(saves, "periodic-save test in execute_iteration")
+    cs = _Comp(F, "int")
+    t = cs.test(sv.test)
+    if cs.params() != ["save_every_", "t0_", "cur_iter"]:
+        raise Unavailable(f"execute_iteration: the periodic-save test reads {cs.params()}")
+    defs.append(_defn("saveTest", ast.unparse(sv.test), [(p, "Int") for p in cs.params()], "Bool", t))
+    tabs["iterSkeleton"] = _src_skeleton(ex)
+
+    # ------------------------------------------------------------------------------------------------ compute_evidence
+    ev = _func(core, "SamplerCore", "compute_evidence")
+    F = _Fn(ev, consts)
+    r = _only1([s for s in _clean(ev.body) if isinstance(s, ast.Return)], "return of compute_evidence").value
+    first = r.elts[0] if isinstance(r, ast.Tuple) and r.elts else r
+    if isinstance(first, ast.Name) and F.definition(first.id) is not None:
+        first = F.definition(first.id)
+    k = _is_get_current(first)
+    if k is None:
+        raise Unavailable("compute_evidence: the first returned value is not a current-state read")
+    defs.append(_defn("evidenceKey", "state key compute_evidence()[0] reads", [], "String", '"' + _safe(k) + '"'))
+    tabs["evidenceSkeleton"] = _src_skeleton(ev)
+
+    # ------------------------------------------------------------------------------------------------ Reweighter.run: iter + 1
+    rw = _parse("tempest/steps/reweight.py")
+    run = _func(rw, "Reweighter", "run")
+    F = _Fn(run, _module_consts("tempest/config.py", "tempest/steps/reweight.py"))
+    its = [n for n in ast.walk(run) if isinstance(n, ast.Call) and _u(n.func) == "self.state.set_current" and len(n.args) == 2
+           and isinstance(n.args[0], ast.Constant) and n.args[0].value == "iter"]
+    it = _only1(its, "set_current('iter', …) in Reweighter.run")
+    ci = _Comp(F, "int")
+    v = ci.term(it.args[1])
+    if ci.params() != ["cur_iter"]:
+        raise Unavailable(f"Reweighter.run: the new iteration number reads {ci.params()}")
+    defs.append(_defn("iterNext", "set_current('iter', " + ast.unparse(it.args[1]) + ")", [("cur_iter", "Nat")], "Nat", v))
+    return defs, tabs
+
+
+def render_src(defs, tabs):
+    L = ["/- GENERATED by translate/g12_entry.py (extract_src) from /repo's current source — do not edit. -/",
+         "import TempestVerif.Sc", "set_option linter.unusedVariables false", "namespace Gen.RunEntrySrc", ""]
+    for d in defs:
+        L += [d, ""]
+    for k, v in tabs.items():
+        L += [f"def {k} : List String :=\n  [" + ",\n   ".join('"' + _safe(x) + '"' for x in v) + "]", ""]
+    L += ["end Gen.RunEntrySrc", ""]
+    return "\n".join(L)
+
+
+def generate_src():
+    try:
+        defs, tabs = extract_src()
+        text = render_src(defs, tabs)
+    except Unavailable as e:
+        return (SRC_NAME, "unavailable", _safe(e))
+    except (SyntaxError, OSError, RecursionError, UnicodeError) as e:
+        return (SRC_NAME, "unavailable", _safe(f"{type(e).__name__}: {e}"))
+    except (AttributeError, IndexError, KeyError, TypeError, ValueError) as e:      # an AST shape the reader did not foresee
+        return (SRC_NAME, "unavailable", _safe(f"unforeseen source shape ({type(e).__name__}: {e})"))
+    changed = common.write_if_changed(os.path.join(common.GEN, "RunEntrySrc.lean"), text)
+    return (SRC_NAME, "ok", f"{'re' if changed else ''}generated Gen/RunEntrySrc.lean ({len(defs)} terms, "
+                            f"{sum(len(v) for v in tabs.values())} statements)")
